@@ -27,16 +27,16 @@ READY = True
 LEVEL = "exploration"
 TECHNIQUE = ("runtime monitoring: metamorphic oracle - power flow of the round-tripped network must reproduce bus voltages, "
              "slack injections and losses of the original, matched through the converter's bus lookup")
-CASES = {"quick": 500, "thorough": 15000}
+CASES = {"quick": 400, "thorough": 12000}
 BUDGET = {"quick": 60, "thorough": 1500}
-FLOORS = {"quick": {"nontrivial": 200, "max_skip_frac": 0.35,
-                    "tags": {"route:ppc": 120, "route:mpc": 100, "trafo3w": 60, "xward": 20, "ward": 30, "gen": 80, "multi_ref": 40,
-                             "oos_element": 80, "open_switch": 80, "fused_buses": 60, "tap_off_neutral": 120, "phase_shift": 80,
-                             "branch_g": 60, "cva=False": 40, "init=results": 80, "sym_impedance": 40, "shunt": 60},
-                    "extras": {"buses_compared": 3000, "ref_buses_compared": 300, "aux_buses": 100}},
-          "thorough": {"nontrivial": 6000, "max_skip_frac": 0.35,
-                       "tags": {"route:ppc": 3000, "route:mpc": 3000, "trafo3w": 1500, "xward": 500, "multi_ref": 1000},
-                       "extras": {"buses_compared": 90000}}}
+FLOORS = {"quick": {"nontrivial": 170, "max_skip_frac": 0.35,
+                    "tags": {"route:ppc": 100, "route:mpc": 70, "trafo3w": 60, "xward": 50, "ward": 70, "gen": 100, "multi_ref": 70,
+                             "oos_element": 110, "open_switch": 60, "fused_buses": 80, "tap_off_neutral": 130, "phase_shift": 130,
+                             "branch_g": 90, "cva=False": 40, "init=results": 70, "sym_impedance": 55, "shunt": 100},
+                    "extras": {"buses_compared": 1500, "ref_buses_compared": 220, "aux_buses": 200}},
+          "thorough": {"nontrivial": 5000, "max_skip_frac": 0.35,
+                       "tags": {"route:ppc": 3000, "route:mpc": 2500, "trafo3w": 1500, "xward": 1000, "multi_ref": 1500},
+                       "extras": {"buses_compared": 45000}}}
 RULE = ("seeded random networks (profiles full_mix, transmission, multi_island, weakly_meshed, dist_radial; asymmetric "
         "impedances and dc lines excluded, a symmetric impedance added with p=0.4) x route (ppc / mpc file) x "
         "calculate_voltage_angles x init x switch_rx_ratio; non-trivial = both power flows converged and >= 4 buses compared; "
@@ -136,9 +136,11 @@ def convert(net, route, opts, tag):
             os.remove(path)
 
 
-def _n_ppci_branches(net, opts):
+def _single_row_case(net, opts):
+    """True if the bus or the branch matrix of the exported case has at most one row"""
     kw = {k: opts[k] for k in ("switch_rx_ratio", "check_connectivity") if k in opts}
-    return int(to_ppc(net, trafo_model="pi", calculate_voltage_angles=opts["calculate_voltage_angles"], init="flat", **kw)["branch"].shape[0])
+    ppc = to_ppc(net, trafo_model="pi", calculate_voltage_angles=opts["calculate_voltage_angles"], init="flat", **kw)
+    return ppc["branch"].shape[0] <= 1 or ppc["bus"].shape[0] <= 1
 
 
 def run_opts(opts, converted=False):
@@ -276,9 +278,9 @@ def run_case(seed, tier, case_no):
         n2, ppc = convert(net, route, opts, str(case_no))
     except Exception as e:  # noqa
         mech = None
-        if route == "mpc" and isinstance(e, IndexError) and "1-dimensional" in str(e) and _n_ppci_branches(net, opts) == 1:
-            # scipy.io.loadmat(squeeze_me=True) returns a one-row branch matrix as a vector; from_mpc only re-shapes gen
-            mech = "from_mpc_single_branch_squeezed"
+        if route == "mpc" and isinstance(e, IndexError) and "1-dimensional" in str(e) and _single_row_case(net, opts):
+            # scipy.io.loadmat(squeeze_me=True) returns a one-row bus / branch matrix as a vector; from_mpc only re-shapes gen
+            mech = "from_mpc_single_row_squeezed"
         return common.case(digest, nontrivial=True, tags=tags, sample=sample, violations=[common.viol(
             "conversion (%s) raised %s: %s" % (route, type(e).__name__, str(e)[:300]), mechanism=mech, **ident)])
     lookup = np.array(net._pd2ppc_lookups["bus"]).copy()
